@@ -141,7 +141,11 @@ type SubjectGuard func(v ssa.Value) func(Cond) (bool, bool)
 // with the subject, whose result is tested by the caller, and all of whose
 // returns of the tested class are themselves guarded on the corresponding
 // parameter ("if err := check(x); err != OK { return }").
-func guardedByS(fn *ssa.Function, at *ssa.BasicBlock, subj ssa.Value, mk SubjectGuard, depth int) bool {
+// FieldGuard builds the matcher for a plain value v that stands for field
+// `field` of the subject (a helper that is handed ip.Kind instead of ip).
+type FieldGuard func(field string, v ssa.Value) func(Cond) (bool, bool)
+
+func guardedByS(fn *ssa.Function, at *ssa.BasicBlock, subj ssa.Value, mk SubjectGuard, depth int, fmk ...FieldGuard) bool {
 	if guardedBy(fn, at, mk(subj)) {
 		return true
 	}
@@ -185,9 +189,18 @@ func guardedByS(fn *ssa.Function, at *ssa.BasicBlock, subj ssa.Value, mk Subject
 			continue
 		}
 		idx := -1
+		fieldOf := ""
 		for i, a := range call.Call.Args {
 			if same(a, subj) && i < len(h.Params) {
 				idx = i
+			}
+		}
+		if idx < 0 && len(fmk) > 0 {
+			// the helper is handed a field of the subject
+			for i, a := range call.Call.Args {
+				if _, fl, base, _ := loadedField(a); fl != "" && base == stripConv(subj) && i < len(h.Params) {
+					idx, fieldOf = i, fl
+				}
 			}
 		}
 		if idx < 0 {
@@ -213,7 +226,11 @@ func guardedByS(fn *ssa.Function, at *ssa.BasicBlock, subj ssa.Value, mk Subject
 					continue
 				}
 				n++
-				if !guardedByS(h, b, h.Params[idx], mk, depth+1) {
+				if fieldOf != "" {
+					if !guardedBy(h, b, fmk[0](fieldOf, h.Params[idx])) {
+						all = false
+					}
+				} else if !guardedByS(h, b, h.Params[idx], mk, depth+1, fmk...) {
 					all = false
 				}
 			}
